@@ -815,6 +815,64 @@ pub struct UpdateGraphWithSimulatorOptions {
     pub skip_vis_update: bool,
 }
 
+/// Verification hook (runtime monitors in `/verif`): explicit description of one market
+/// (two directed edges) for [`MarketGraph::verif_from_edge_costs`].
+#[cfg(gmsol_verif)]
+#[derive(Debug, Clone)]
+pub struct VerifMarketEdges {
+    /// Market token (identifies the market / both edges).
+    pub market_token: Pubkey,
+    /// Index token.
+    pub index_token: Pubkey,
+    /// Long token.
+    pub long_token: Pubkey,
+    /// Short token.
+    pub short_token: Pubkey,
+    /// `ln(exchange rate)` of the long -> short edge (`None`: edge has no estimation).
+    pub long_to_short_ln_rate: Option<Decimal>,
+    /// `ln(exchange rate)` of the short -> long edge (`None`: edge has no estimation).
+    pub short_to_long_ln_rate: Option<Decimal>,
+}
+
+/// Verification hook (runtime monitors in `/verif`): build a graph from explicit edge costs.
+#[cfg(gmsol_verif)]
+impl MarketGraph {
+    /// Build a [`MarketGraph`] whose edges carry the given `ln(exchange rate)`s instead of
+    /// estimations computed from market models. Markets are inserted in the given order
+    /// through the regular `insert_market_with_options` (without estimation update).
+    pub fn verif_from_edge_costs(config: MarketGraphConfig, markets: &[VerifMarketEdges]) -> Self {
+        use gmsol_programs::gmsol_store::accounts::Market;
+
+        let mut this = Self::with_config(config);
+        for spec in markets {
+            let mut market = Market::default();
+            market.meta.market_token_mint = spec.market_token;
+            market.meta.index_token_mint = spec.index_token;
+            market.meta.long_token_mint = spec.long_token;
+            market.meta.short_token_mint = spec.short_token;
+            this.insert_market_with_options(MarketModel::from_parts(Arc::new(market), 0), false);
+            let state = this
+                .markets
+                .get(&spec.market_token)
+                .expect("just inserted");
+            let (long_edge, short_edge) = (state.long_edge, state.short_edge);
+            this.graph
+                .edge_weight_mut(long_edge)
+                .expect("just inserted")
+                .estimated = spec
+                .long_to_short_ln_rate
+                .map(|ln_exchange_rate| SwapEstimation { ln_exchange_rate });
+            this.graph
+                .edge_weight_mut(short_edge)
+                .expect("just inserted")
+                .estimated = spec
+                .short_to_long_ln_rate
+                .map(|ln_exchange_rate| SwapEstimation { ln_exchange_rate });
+        }
+        this
+    }
+}
+
 /// Best Swap Paths.
 pub struct BestSwapPaths<'a> {
     graph: &'a MarketGraph,
